@@ -83,6 +83,7 @@ type c18Case struct {
 	GenOffset int64    `json:"genesis_offset_s"`
 	Epp       int64    `json:"epochs_per_period"`
 	Ident     string   `json:"epoch_identifier,omitempty"` // inflation's epoch identifier at genesis ("" = day)
+	Extra     []string `json:"extra_epochs,omitempty"`     // further epoch identifiers of the genesis
 	Ops       []c18Op  `json:"ops"`
 	Bad       []c18Bad `json:"bad,omitempty"`
 }
@@ -414,13 +415,16 @@ func (e *Env) c18GenOps(stream string, n int) []c18Op {
 			add("deploy", 0, 0)
 			add("csr-deploy", 0, 0)
 		}
+		if e.Chance(0.4) { // two coins / a voucher and a coin whose denominations differ only in letter case
+			add("regcoin-case", e.Pick(8), 0)
+		}
 	}
 	kinds := []struct {
 		k string
 		w int
 	}{{"advance", 14}, {"mint", 4}, {"addliq", 9}, {"swap", 6}, {"rmliq", 3}, {"regcoin", 7}, {"deploy", 3}, {"regerc20", 7}, {"toggle", 6}, {"kill", 3},
 		{"csr-enable", 2}, {"csr-deploy", 3}, {"csr-register", 8}, {"csr-assign", 5}, {"proposal", 3}, {"params-coinswap", 3}, {"params-inflation", 3},
-		{"params-onboarding", 3}, {"params-erc20", 2}, {"inflation-toggle", 4}, {"rmliq-all", 2}}
+		{"params-onboarding", 3}, {"params-erc20", 2}, {"inflation-toggle", 4}, {"rmliq-all", 2}, {"regcoin-case", 2}}
 	total := 0
 	for _, k := range kinds {
 		total += k.w
@@ -1088,7 +1092,7 @@ var c18BadKinds = map[string][]string{
 func runC18(e *Env) {
 	e.Header("From stdpp Require Import gmap.\nFrom Coq Require Import ZArith List.\nFrom Canto Require Model.TokenPairs Model.Csr.\nFrom Canto Require Import Model.Authority Model.Epochs Model.Genesis Check.Common Check.GenesisCheck.\nImport ListNotations.\nOpen Scope Z_scope.\n")
 	e.ShardSize = 4
-	e.Stats.Rule = "case = generated history on a real chain (InitChain with a genuine bonded validator, non-zero genesis time): coinswap add/remove liquidity and swaps, erc20 register coin / register ERC-20 / toggle / removal after self-destruct, csr enable + Turnstile deployment by BeginBlock + register/assign through signed Ethereum transactions (revenue, tx counters), govshuttle lending-market proposal (port contract), block time advanced through EpochsKeeper.BeginBlocker across day/week boundaries with inflation as listener, parameter updates of coinswap / inflation / csr / onboarding / erc20; stream pools: 14 whitelisted denominations and 10-13 pools (two-digit pool sequence), full liquidity removal; stream inflation: enable_inflation toggled both ways around day/week boundaries; genesis varies epochs_per_period {1,2,3,5,30} and the inflation identifier {day, week}; stream guard-overflow-params: overflowing inflation parameters must be rejected; stream bulk: more than 100 CSR NFTs (real Turnstile + hook), token pairs and pools, with probes for every object of the original chain's stores; then whole-app export from the live deliver context, each module's ValidateGenesis, InitChain of a fresh app from the export, second export without a block, module queries on both; plus malformed documents per module against the real ValidateGenesis; non-trivial = the exported Canto state differs from the default genesis; distinct by hash of the seven exported documents"
+	e.Stats.Rule = "case = generated history on a real chain (InitChain with a genuine bonded validator, non-zero genesis time): coinswap add/remove liquidity and swaps, erc20 register coin / register ERC-20 / toggle / removal after self-destruct, csr enable + Turnstile deployment by BeginBlock + register/assign through signed Ethereum transactions (revenue, tx counters), govshuttle lending-market proposal (port contract), block time advanced through EpochsKeeper.BeginBlocker across day/week boundaries with inflation as listener, parameter updates of coinswap / inflation / csr / onboarding / erc20; stream pools: 14 whitelisted denominations and 10-13 pools (two-digit pool sequence), full liquidity removal; stream inflation: enable_inflation toggled both ways around day/week boundaries; genesis varies epochs_per_period {1,2,3,5,30} and the inflation identifier {day, week}; stream guard-overflow-params: overflowing inflation parameters must be rejected; case variants: pairs of registered coins / a voucher and a coin whose denominations differ only in letter case, pool counterparties and epoch identifiers differing only in case; stream bulk: more than 100 CSR NFTs (real Turnstile + hook), token pairs and pools, with probes for every object of the original chain's stores; then whole-app export from the live deliver context, each module's ValidateGenesis, InitChain of a fresh app from the export, second export without a block, module queries on both; plus malformed documents per module against the real ValidateGenesis; non-trivial = the exported Canto state differs from the default genesis; distinct by hash of the seven exported documents"
 	var cases []c18Case
 	if e.Replay != nil {
 		var k c18Case
@@ -1103,6 +1107,9 @@ func runC18(e *Env) {
 			k := c18Case{GenOffset: e.Rng.Int63n(1_000_000_000), Epp: []int64{1, 2, 3, 5, 30}[e.Pick(5)]}
 			if e.Chance(0.25) {
 				k.Ident = "week"
+			}
+			if e.Chance(0.25) { // identifiers that differ from the usual ones only in letter case
+				k.Extra = [][]string{{"Day"}, {"WEEK", "Day"}, {"DAY", "hour"}}[e.Pick(3)]
 			}
 			switch {
 			case c == 0:
@@ -1143,7 +1150,7 @@ func runC18(e *Env) {
 		if k.Epp <= 0 {
 			k.Epp = 30
 		}
-		ch := c18NewChain(GenesisTime.Add(time.Duration(k.GenOffset)*time.Second), k.Epp, k.Ident)
+		ch := c18NewChain(GenesisTime.Add(time.Duration(k.GenOffset)*time.Second), k.Epp, k.Ident, k.Extra...)
 		r := &c18Run{e: e, ch: ch}
 		for _, op := range k.Ops {
 			r.exec(op)
